@@ -5,6 +5,10 @@ ROOT = os.path.dirname(os.path.dirname(os.path.abspath(__file__)))
 
 # id -> (level, technique, level text, level note, design ref)
 CLAIMED = {
+ "C16": ("exploration", "runtime monitoring: deep-snapshot comparison of caller-held values across PRNG later-activity histories, with a poison-on-release hook in the slice pools (build tag verif) that makes dangling aliases deterministic; thorough tier also under the race detector",
+         "Held on every explored history: Go values filled by GenericReader.Read and retained by shallow copy while the batch slice is reused, cloned Rows, and un-cloned Rows (until the next call on their reader) are bit-identical to their snapshot after later reads, seeks, Reset, Close, other readers of the same and other files, writer churn through the shared pools and GC; rows and []Row passed to Write/WriteRows/SortingWriter/sorted buffers/DedupeRowWriter are unchanged afterwards. Because released pool memory is overwritten with 0xDB, an alias that survives a release shows up on the first comparison instead of depending on pool reuse. Sampling of histories: exploration.",
+         "Hook: internal/memory.putSliceToPool poisons released slices when built with -tags verif (VERIF_POISON=0 disables). Memory not managed by the slice pools is outside the hook's reach.",
+         "DESIGN.md §4 C16"),
  "C09": ("exploration", "runtime monitoring: (source, sequence)-tagged rows checked by an O(n) scan for sortedness (independent comparator), multiset completeness and per-source order over PRNG merge plans",
          "Held on every explored merge: 0..17 sorted inputs (file row groups with small pages, with/without page index, and buffers), disjoint/touching/nested/identical key ranges with duplicates, asc/desc, nullable keys with both null placements, 1-2 key columns, input sizes that engage range refinement and run mode, consumed via Rows() at 6 batch sizes, MergeRowReaders, CopyRows and WriteRowGroup+read back, with and without duplicate dropping: output sorted, exactly the union of the inputs, each input's rows in their original order, one row per key under dedup. Sampling: exploration.",
          "Inputs are sorted by the independent comparator (spec orders; no NaN keys). Ties across inputs are unconstrained.",
